@@ -13,6 +13,7 @@ opaque `Float` is used.  What the constructors of Integer / Float / Numeric / Bo
 | `float64(int64)` (round to nearest, ties to even)         | `F64.ofInt` (the exact rounding of Model/Num.lean `decToBits`) |
 | `int64(float64)` (truncation; out of range / NaN: amd64's CVTTSD2SQ answers MinInt64) | `F64.toInt64` |
 | `FloatType.bounds` + `FloatType.IsInstance`               | `F64.effLo`, `F64.effHi`, `F64.inRange` |
+| `f * 1e9`, `f / 1e9` (the Timespan conversions)           | `F64.scale10 · 9`, `F64.scale10 · (-9)` (exact product, rounded by `decToBits`) |
 
 The order is computed on `key`: a finite double is an integer multiple of 2^-1074 and is represented by that integer; the
 infinities are the sentinels `±infKey` beyond every finite double; NaN has no key (the same representation as `Fl` of the
@@ -88,6 +89,39 @@ def inRange (lo hi : Int) (b : Nat) : Bool :=
   match key b with
   | some k => decide (effLo lo ≤ k) && decide (k ≤ effHi hi)
   | none => false
+
+/-- the correctly rounded `f * 10^e10` (`e10` may be negative: a division by a power of ten) of a double.  A finite double
+    is `m·2^sh` with `m < 2^53`: for `sh ≥ 0` the integer `m·2^sh`, otherwise the decimal `m·5^(-sh) · 10^sh` — which the
+    exact reader of Model/Num.lean rounds.  `none` = NaN or ±Inf in, or the product overflows (Go: ±Inf) -/
+def scale10 (b : Nat) (e10 : Int) : Option Nat :=
+  if expOf b = 2047 then none
+  else
+    let m : Nat := if expOf b = 0 then manOf b else 2 ^ 52 + manOf b
+    let sh : Int := (if expOf b = 0 then (0 : Int) else (expOf b : Int) - 1) - 1074
+    if sh ≥ 0 then Pcore.Syntax.decToBits ⟨negOf b, m * 2 ^ sh.toNat, e10⟩
+    else Pcore.Syntax.decToBits ⟨negOf b, m * 5 ^ (-sh).toNat, e10 + sh⟩
+
+/-- int64 arithmetic wraps -/
+def wrap64 (x : Int) : Int := (x + 9223372036854775808) % 18446744073709551616 - 9223372036854775808
+
+/-- `time.Duration(f * NsecsPerSec)`: the float64 product, then `int64(·)` -/
+def floatSecondsToNs (b : Nat) : Int :=
+  match key b with
+  | none => minInt
+  | some k =>
+    if k = infKey || k = -infKey then minInt
+    else match scale10 b 9 with
+      | some p => toInt64 p
+      | none => minInt                   -- the product overflowed to ±Inf
+
+/-- `Timespan.Int()` = `totalSeconds()`: int64 division truncates -/
+def spanSeconds (ns : Int) : Int := ns.tdiv 1000000000
+
+/-- `Timespan.Float()`: `float64(ns) / float64(NsecsPerSec)` -/
+def spanFloat (ns : Int) : Nat :=
+  match scale10 (ofInt ns) (-9) with
+  | some q => q
+  | none => 0                            -- unreachable: the quotient of a finite number cannot overflow
 
 def one : Nat := 0x3FF0000000000000
 def zero : Nat := 0
